@@ -41,6 +41,13 @@ for pf in sorted(glob.glob(os.path.join(R, "coq", "Props", "C*.v"))):
     tech = json.load(open(mf)).get("technique", "") if os.path.exists(mf) else ""
     rows.append("| %s | %d | %s | %s | `design.d/%s.md` |" % (pid, n, ", ".join(gens) or "— (hand model + correspondence)", tech.replace("|", "/")[:260], pid))
 region("perprop", "\n".join(rows))
+props_rows = []
+for f in sorted(glob.glob(os.path.join(R, "fixes", "*.diff"))):
+    rev = subprocess.run(["git", "-C", "/repo", "apply", "--check", "-R", f], capture_output=True).returncode == 0
+    fwd = subprocess.run(["git", "-C", "/repo", "apply", "--check", f], capture_output=True).returncode == 0
+    if not rev and fwd:
+        props_rows.append(" * `fixes/%s`" % os.path.basename(f))
+region("proposals", "\n".join(props_rows) or " * (none)")
 m = os.path.join(R, "seeded", "MATRIX.md")
 if os.path.exists(m):
     rows = [l for l in open(m).read().split("\n") if l.startswith("| C")]
